@@ -40,6 +40,10 @@ checks = {
    text="Seeded branching histories over a pool of live values: Seq/[]int inputs carved out of harness-owned arenas (spare capacity, overlapping windows), strict/lazy/slice-backed Lists, immutable Map/Set versions under adversarial hashers, Go maps handed to the library, Option/Try/tuples, and builders kept after Build. 1-3 simulated clients apply 60 operation kinds of the non-mutable API to randomly chosen live values (old versions included); results join the pool. When a value enters the pool two snapshots are taken - contents through the public API and raw memory (whole arenas, backing arrays up to cap, Go maps, structural fingerprint of each retained trie) - and both are compared after every later event, the first difference being attributed to the event that caused it. Sampling of histories and layouts, not proof.",
    note="Views (Take/Drop/Tail/Init) may share storage, only writes are violations. A builder that refuses (panics) when used after Build is accepted. No intra-operation interleaving exists; client interleaving is at operation granularity. Element type is int; the mutable package is excluded as the property says.",
    technique="deterministic simulation (history leg): seeded multi-client branching histories, aliasing-layout and builder-reuse faults, API-content and raw-memory snapshots re-compared after every event"),
+ "C15": dict(cat="fault_enumeration", design="DESIGN.md §4 C15",
+   text="PARTIAL claim (byte-level part only). A seeded value of fp.Option[T] (T = int incl. extremes, string with escapes, float64, bool, nested Option, []int, map[string]int, struct with Option fields, *int; top-level and inside slices/maps/structs) or fp.Unit is marshalled into a simulated byte store. Fault-free class: json.Unmarshal and json.Decoder (over a short-reading io.Reader) give back a deep-equal value, None <=> null both ways, bytes equal encoding/json of the plain value. Fault class: torn write at EVERY offset of the record (complete), plus seeded bit flips, byte duplication/deletion, splice, zero fill, whitespace, concatenated records, and a reader error mid-stream; decoding into a pre-populated target must never panic, and when it returns an error an Option/Unit target must be unchanged.",
+   note="NOT decided here: the quantifier over @fp.Json struct shapes and the equality with the Mutable twin's encoding (statements about gombok-generated programs, see C07 - not a simulation target). Values whose own encoding is null are excluded as the property says. 'Unchanged on error' is required of Option/Unit targets only, not of plain containers encoding/json itself fills incrementally.",
+   technique="fault injection on the byte store / io.Reader seam: exhaustive torn-write offsets + seeded corruption per record, round-trip and target-unchanged oracles"),
 }
 
 na = {
